@@ -1,13 +1,37 @@
 (* Properties_C02.v -- C02: the -lh1- decoder stays in lock-step with LZHUF.
    The specification is Lzhuf.v (StartHuff, update, reconst, EncodeChar,
-   EncodePosition, lzhuf_encode, lz77_expand_4k).  Proved so far: the initial
-   states correspond under the mirror j <-> 626 - j, and the fixed position code
-   inverts the decoder's offset table for all 4096 offsets; the simulation
-   through every update and rebuild (lh1_refines_lzhuf, lh1_roundtrip) is decided
-   by the direct oracle of the check until its proof is complete. *)
-From Lhasa Require Import Base Generated Lh1 Lzhuf.
+   EncodePosition, lzhuf_encode, lz77_expand_4k).  Proved in full (P_Lh1.v): the decoder's tree stays the mirror image
+   (node j <-> LZHUF position 626 - j) of LZHUF's tables through every increment,
+   exchange and rebuild, for ANY sequence of codes (lh1_refines_lzhuf); the fixed
+   position code inverts the decoder's offset table; and the round trip
+   decode (LZHUF-encode cmds) = LZ77-expand cmds for command lists of any length
+   (lh1_roundtrip, one lh1_read per command; the API-level form for arbitrary read
+   schedules is being added). *)
+From Lhasa Require Import Base DecBase Generated Lh1 Lzhuf P_Lh1.
 Local Open Scope N_scope.
 
 Example lzhuf_expand_example :
   lz77_expand_4k [Lit 65; Copy 0 5] = [65; 65; 65; 65; 65; 65].
 Proof. vm_compute. reflexivity. Qed.
+
+(* lock-step: after ANY sequence of codes the decoder's tree satisfies its structural
+   invariant and mirrors LZHUF's state after the same updates (incl. every rebuild) *)
+Theorem lh1_refines_lzhuf : forall codes, Forall (fun c => c < 314) codes ->
+  exists t', lh1_run_codes (lh1_t lh1_s0) codes = Ok t' /\ lh1_tree_inv t' /\
+             lh1_mirror (fold_left update codes StartHuff) t'.
+Proof. exact P_Lh1.lh1_refines_lzhuf. Qed.
+
+Theorem lh1_initial_state : lh1_init = Ok lh1_s0 /\ lh1_mirror StartHuff (lh1_t lh1_s0).
+Proof. split; [exact lh1_init_eq|exact lh1_mirror_init]. Qed.
+
+(* the round trip: the encoder's byte stream followed by any bytes decodes, command by
+   command, to the LZ77 expansion (4096-byte window pre-filled with spaces) *)
+Theorem lh1_roundtrip : forall cmds more, Forall cmd_valid cmds -> Forall (fun x => x < 256) more ->
+  exists s' c',
+    lh1_reads (length cmds) lh1_s0 {| src_data := bits_to_bytes (lzhuf_encode cmds) ++ more; src_chunks := [] |} =
+      Ok (lz77_expand_4k cmds, s', c') /\ lh1_inv s'.
+Proof. exact P_Lh1.lh1_roundtrip. Qed.
+
+Print Assumptions lh1_refines_lzhuf.
+Print Assumptions lh1_initial_state.
+Print Assumptions lh1_roundtrip.
